@@ -28,7 +28,7 @@ class JsonSerializer:
         Get JSON representation of an object
         """
         jsonpickle.set_encoder_options('json', sort_keys=sort)
-        return jsonpickle.encode(self._data())
+        return jsonpickle.encode(self._data(), make_refs=False)
 
     @classmethod
     def _parse(cls, data):
